@@ -292,6 +292,19 @@ YAML_FUZZ_FIELDS = ["library", "cxx_header", "namespace", "language", "options",
 YAML_FIELD_KINDS = {"library": str, "cxx_header": str, "namespace": str, "language": str, "options": dict, "format": dict,
                     "declarations": list, "typemap": list, "splicer": dict, "splicer_code": dict, "patterns": dict,
                     "copyright": list, "setup": dict}
+DOC_COMBOS = [
+    ("template-function-with-default-arguments", {"decl": "template<typename T> long combine(T a, T b = 1, int scale = 10)",
+                                                  "cxx_template": [{"instantiation": "<int>"}, {"instantiation": "<double>"}]}),
+    ("template-function-with-string-argument", {"decl": "template<typename T> int tagged(const std::string &tag, T value)",
+                                                "cxx_template": [{"instantiation": "<int>"}, {"instantiation": "<double>"}]}),
+    ("overload-with-default-arguments", {"decl": "int pick(int a, double b = 1.5, int c = 2)", "default_arg_suffix": ["_a", "_ab", "_abc"]}),
+    ("generic-with-default-argument", {"decl": "void scale(double x, int n = 2)",
+                                       "fortran_generic": [{"decl": "(float x, int n)", "function_suffix": "_float"}, {"decl": "(double x, int n)", "function_suffix": "_double"}]}),
+    ("template-function-with-pointer-argument", {"decl": "template<typename T> void fill(T *values +intent(out)+dimension(n), int n)",
+                                                 "cxx_template": [{"instantiation": "<int>"}, {"instantiation": "<double>"}]}),
+]
+TYPEMAP_BAD_KEYS = ["bogus", "nome", "C_type", "name", "update", "defaults", "clone_as", "compute_flat_name", "_order"]
+TYPEMAP_GOOD_FIELDS = [("c_header", "vfuser.h"), ("f_module_name", "vf_mod"), ("PY_format", "O"), ("cxx_header", "vfuser.hpp vfother.hpp")]
 WRONG_KINDS = [None, 3, "text", ["a", "b"], {"k": "v"}, True, [{"decl": 3}], [3], {"decl": "x"}, 0, False, "", 0.0]
 
 
@@ -326,7 +339,7 @@ def judge_pipeline(rec, sp, rr, valid=False):
             elif not (e.get("msg") or "").strip():
                 rec.violation("pipeline:empty-diagnostic:%s" % e.get("where"), "%s: %s" % (sp["name"], sp.get("what")), sp)
         else:
-            rec.violation("pipeline:%s:%s:%s" % (e["type"], e.get("where"), norm_msg(e.get("msg"))),
+            rec.violation("pipeline:%s:%s:%s%s" % (e["type"], e.get("where"), norm_msg(e.get("msg")), (":" + sp["mech_tag"]) if sp.get("mech_tag") else ""),
                           "%s [%s]: %s: %s\n%s" % (sp["name"], sp.get("what"), e["type"], (e.get("msg") or "")[:300], e.get("tb", "")[-700:]), sp)
     elif rr.get("exit") not in (0, None):
         rec.count("pipeline_rejected_with_diagnostic")
@@ -450,6 +463,48 @@ def main(rec):
             d["declarations"][1][sub] = wk
             sp = gen.spec_for(d, "yaml:decl.%s=%r" % (sub, wk))
             sp["what"] = "declaration field %s = %r" % (sub, wk)
+            jobs.append((sp, False))
+    # typemap 'fields' dictionaries (top-level typemap section; class, struct and typedef declarations): only the
+    # documented typemap fields are a supported structure; any other key -- including names that happen to be
+    # attributes or methods of Shroud's own typemap object -- must be rejected
+    def tm_cases(key, val):
+        yield "typemap:existing", pipeline_case("tmf", [{"decl": "void g1(const char *s)"}], extra={"typemap": [{"type": "char", "fields": {key: val}}]})
+        yield "typemap:new-shadow", pipeline_case("tmf", [{"decl": "void g2(Other *a)"}], extra={
+            "typemap": [{"type": "Other", "fields": {"base": "shadow", key: val, "f_module_name": "other_mod"}}]})
+        yield "class", pipeline_case("tmf", [{"decl": "class A", "fields": {key: val}, "declarations": [{"decl": "void m()"}]}, {"decl": "void g3(A *a)"}])
+        yield "struct", pipeline_case("tmf", [{"decl": "struct S1 { int i; double d; };", "fields": {key: val}}, {"decl": "void g4(S1 *a)"}])
+        yield "typedef", pipeline_case("tmf", [{"decl": "typedef int TypeID", "fields": {key: val}}, {"decl": "void g5(TypeID a)"}])
+    for key in TYPEMAP_BAD_KEYS:
+        for where, d in tm_cases(key, "vfvalue"):
+            sp = gen.spec_for(d, "typemapfield:%s:%s" % (where, key))
+            sp["what"] = "fields entry %s in %s" % (key, where)
+            sp["must_reject"] = "typemap-field:%s:%s" % (where, "attribute-of-typemap-object" if key in ("name", "update", "defaults", "clone_as", "compute_flat_name", "_order") else "unknown")
+            jobs.append((sp, False))
+    for key, val in TYPEMAP_GOOD_FIELDS:
+        for where, d in tm_cases(key, val):
+            if where == "typemap:new-shadow" and key == "f_module_name":
+                continue
+            sp = gen.spec_for(d, "typemapfield-ok:%s:%s" % (where, key))
+            sp["what"] = "documented fields entry %s in %s" % (key, where)
+            jobs.append((sp, True))
+    for wk in WRONG_KINDS[:6] + [0, False, ""]:
+        for where, d in tm_cases("c_header", "x.h"):
+            if where.startswith("typemap:"):
+                d["typemap"][0]["fields"] = wk
+            else:
+                d["declarations"][1]["fields"] = wk
+            sp = gen.spec_for(d, "typemapfields:%s=%r" % (where, wk))
+            sp["what"] = "'fields' of %s = %r" % (where, wk)
+            if wk is not None and not isinstance(wk, dict):
+                sp["must_reject"] = "fields-kind:%s:%s%s" % (where.split(":")[0], type(wk).__name__, "" if wk else ":falsy")
+            jobs.append((sp, False))
+    # documented features combined in one declaration: never an internal failure
+    for what, ent in DOC_COMBOS:
+        for wraps in (("c", "fortran"), ("python",), ("lua",)):
+            d = pipeline_case("combo", [copy.deepcopy(ent)], wraps=wraps)
+            sp = gen.spec_for(d, "combo:%s:%s" % (what, "+".join(wraps)))
+            sp["what"] = "%s, wrapped for %s" % (ent["decl"].strip(), "+".join(wraps))
+            sp["mech_tag"] = what
             jobs.append((sp, False))
     # valid inputs: never rejected
     for c in corpus.configs():
